@@ -3,7 +3,7 @@
 Require Extraction.
 Require Import ExtrOcamlBasic.
 From Coq Require Import Strings.Byte.
-From Sftp Require Import Base.GoSem Mode.FileMode Wire.Prim Wire.Packets Wire.ClientParse Srv.ReadOnly Srv.OpenFlags Srv.Negotiate Xfer.Transfer Xfer.FileOps Path.Clean Err.Status Srv.ReqServer Srv.Listing Lin.Linearize Srv.ServeLoop Srv.Handles Sched.PktMgr Sched.PktTrace Conn.WireMutex Conn.IdWrap Conn.ClientConn Conn.ConnTrace Sched.Alloc Sched.AllocTrace.
+From Sftp Require Import Base.GoSem Mode.FileMode Wire.Prim Wire.Packets Wire.ClientParse Srv.ReadOnly Srv.OpenFlags Srv.Negotiate Xfer.Transfer Xfer.FileOps Xfer.FileLock Path.Clean Fs.Tree Proofs.TreeP Err.Status Srv.ReqServer Srv.Listing Lin.Linearize Srv.ServeLoop Srv.Handles Sched.PktMgr Sched.PktTrace Conn.WireMutex Conn.IdWrap Conn.ClientConn Conn.ConnTrace Sched.Alloc Sched.AllocTrace.
 Extraction Language OCaml.
 Extraction "model.ml"
   Byte.of_bits Byte.to_bits
@@ -18,4 +18,5 @@ Extraction "model.ml"
   clean clean_with_base clean_path to_local_path status_code perm_fixed normalise dispatch realpath_default
   client_list scripted filelist_step
   lin_check serve serve_fixed hstep h0
-  toPflags served_osflags frun accept_raw quiescent emitted arrived caccept_trace areplay_trace all_used available scan ids_from.
+  toPflags served_osflags frun accept_raw quiescent emitted arrived caccept_trace areplay_trace all_used available scan ids_from
+  FsTree.c_remove FsTree.c_mkdirall FsTree.c_removeall FsTree.spec_mkdirall FsTree.spec_removeall FileLock.wire_scan FsTree.p_remove FsTree.p_rmdir FsTree.p_mkdir FsTree.lstat FsTree.stat FsTreeP.cnt.
